@@ -841,7 +841,12 @@ class Server:
     def increment_output(
         self, messages: list[str], sources: list[BuildSource], is_tty: bool, terminal_width: int
     ) -> dict[str, Any]:
-        status = 1 if messages else 0
+        # Report the same status as a full (non-incremental) run: 0 unless there are
+        # errors (notes alone are not errors), and 2 if a blocking error stopped the update.
+        __, n_notes, __ = count_stats(messages)
+        status = 1 if messages and n_notes < len(messages) else 0
+        if self.fine_grained_manager and self.fine_grained_manager.blocking_error:
+            status = 2
         messages = self.pretty_messages(messages, len(sources), is_tty, terminal_width)
         return {"out": "".join(s + "\n" for s in messages), "err": "", "status": status}
 
